@@ -436,6 +436,7 @@ func (b *memDBBatch) Write() error {
 		default:
 			return fmt.Errorf("unknown operation type %v (%v)", op.opType, op)
 		}
+		verifYield("memDBBatch.Write.op")
 	}
 
 	// Make sure batch cannot be used afterwards. Callers should still call Close(), for errors.
